@@ -194,6 +194,17 @@ def build_cases(tier):
 
 
 def replay(data):
+    if data.get('query') == 'bigindex':
+        from sweetpea._internal import combinatorics as C
+        n, m, j = data['n'], data['m'], data['j']
+        perm = C.compute_jth_permutation_prefix(n, m, j)
+        used = [False] * n
+        back, mul = 0, 1
+        for i, v in enumerate(perm):
+            back += sum(1 for u in range(v) if not used[u]) * mul
+            mul *= (n - i)
+            used[v] = True
+        return back != j
     if data.get('query') == 'count':
         from sweetpea._internal import combinatorics as C
         return eval(data['expr'], {'C': C}) != data['expected']
@@ -226,6 +237,25 @@ def run(ctx):
         if got != want:
             ctx.violation(f'count:{desc}', f'{desc} = {got}, brute-force count of arrangements = {want}',
                           {'query': 'count', 'expr': expr, 'expected': want})
+    # concrete probes at very large indices (beyond 2^53), where a float slipping into the arithmetic would show
+    import random as _r
+    rnd = _r.Random(ctx.seed)
+    for (n, m) in ((20, 20), (25, 25), (30, 17), (40, 12)):
+        N = math.perm(n, m)
+        probes = {N - 1, N - 2, 2 ** 53 + 1, 2 ** 60 + 3, N // 2 + 1, N // 3} | {rnd.randrange(2 ** 53, N) for _ in range(60)}
+        for j in sorted(p for p in probes if 0 <= p < N):
+            ctx.case(f'bigindex:{n}:{m}:{j}')
+            perm = C.compute_jth_permutation_prefix(n, m, j)
+            used = [False] * n
+            back, mul = 0, 1
+            for i, v in enumerate(perm):
+                back += sum(1 for u in range(v) if not used[u]) * mul
+                mul *= (n - i)
+                used[v] = True
+            if back != j or len(set(perm)) != m:
+                ctx.violation(f'bigindex:compute_jth_permutation_prefix:{n}:{m}', f'compute_jth_permutation_prefix({n},{m},{j}) = '
+                              f'{perm} ranks back to {back}', {'query': 'bigindex', 'n': n, 'm': m, 'j': j})
+                break
     ctx.sample({'case': cases[3].name, 'info': cases[3].info, 'post': cases[3].post.strip()})
     run_cases(ctx, HEADER, cases, timeout=120 if ctx.tier == 'thorough' else 60, path_timeout=30, module_tag='c13',
               keyfn=lambda c, kw: f"{c.info['fn']}:{ {k: v for k, v in c.info.items() if k not in ('fn',)} }")
